@@ -82,7 +82,7 @@ def R(id, entry, enforce=None, replace=(), loops=False, props=('C01', 'C20'), **
     d.update(kw)
     UNIT['runs'].append(d)
 
-R('recv_passive', 'h_recv_passive', None, unwind=3, props=('C01', 'C04', 'C20'), cost=300)
+R('recv_passive', 'h_recv_passive', None, unwind=3, props=('C01', 'C04', 'C20'), cost=300, tier='thorough')
 for _r, _n in ((0, 'passive'), (1, 'active'), (2, 'answering')):
-    R('recv_' + _n + '_any', 'h_recv_any', None, unwind=3, defines=['CASE_ROLE=%d' % _r], props=('C01', 'C02', 'C03', 'C04', 'C15', 'C20'), cost=400, timeout=1500)
-    R('send_' + _n, 'h_send_any', None, unwind=3, defines=['CASE_ROLE=%d' % _r], props=('C02', 'C03', 'C04', 'C15', 'C20'), cost=200, timeout=1500)
+    R('recv_' + _n + '_any', 'h_recv_any', None, unwind=3, defines=['CASE_ROLE=%d' % _r], props={0: ('C01', 'C03', 'C04', 'C20'), 1: ('C02', 'C03', 'C04', 'C20'), 2: ('C15', 'C03', 'C20')}[_r], cost=400, timeout=1500)
+    R('send_' + _n, 'h_send_any', None, unwind=3, defines=['CASE_ROLE=%d' % _r], props={0: ('C03', 'C04', 'C20'), 1: ('C02', 'C03', 'C04', 'C20'), 2: ('C15', 'C03', 'C20')}[_r], cost=200, timeout=1500)
